@@ -222,6 +222,13 @@ _PATCH_NOTES = {
     "RE2": "core: urgency classifiers take the scalar threshold instead of &ServerConfig", "RE3": "sqlite: helper returns rusqlite::Result, callers add the context", "RE4": "bin: ServerArgs::new takes &ArgMatches",
     "RF1": "core: 13 tiny everyday touches (derives, inline, trace logs, bail!, a.max(b), as_mut)", "RF2": "sqlite: 13 tiny touches (Self, inlined temps, array, params!, bail!)",
     "RF3": "api/lib: 14 tiny touches (as_ref, debug logs, parentheses, annotations, Arc::clone)", "RF4": "bin: 8 tiny touches (imports, docs, derives, turbofish, debug logs)",
+    "TA1": "core: pure is_conflict / classify_missing_child extracted for testability", "TA2": "sqlite: pure db_path / snapshot_from_parts", "TA3": "api: parse_client_id(Option<&HeaderValue>) split from the allow-list check, snapshot_header()",
+    "TA4": "bin: pure server_config(&ServerArgs)", "TC1": "inmemory: entry API, single guard deref, #[inline]", "TC2": "core: one urgency match, loop-invariant hoisted out of the walk",
+    "TC3": "sqlite: prepare_cached + Statement::query_row inside and_then", "TC4": "api: Vec::from(body), #[inline]/#[cold]", "TD1": "core: map_or_else, [a, b].contains(&x), Some(x).filter(..), map_or with ? in the closure",
+    "TD2": "inmemory: ok_or_else/filter chain, and_then, get_mut().ok_or_else", "TD3": "sqlite: zip().zip().map(), then_some().ok_or_else(), direct result chains", "TD4": "api: and_then(..ok()) header chain, is_some_and, then_some(()).ok_or_else",
+    "TE1": "core: explicit matches for ok_or/?, if-a>b-else for max, mutable Option instead of map", "TE2": "inmemory: explicit match arms re-wrapping Some(v.clone())", "TE3": "sqlite: explicit no-row arm instead of optional(), Err(e).context(..)",
+    "TE4": "api: explicit matches instead of map_err+?, loop/match over the stream", "TF1": "core: add_snapshot split; walk in check_snapshot_version() returning Accept/Decline", "TF2": "core: add_version split into append_version() and snapshot_urgency()",
+    "TF3": "add_version handler: read_body() and create_missing_client() helpers", "TF4": "sqlite: initialize(con) and client_from_row() split out",
 }
 for _p in sorted(_glob.glob(_os.path.join(_PD, "*.diff"))):
     _n = _os.path.basename(_p)[:-5]
